@@ -578,7 +578,13 @@ def reader_path_checksums(rng, tier, rep, hx):
                 if k in (0, ln - 1) or rng.random() < 0.5:
                     b[(st + k) // 8] ^= 0x80 >> ((st + k) % 8)
         script = [rng.choice((1, 1, 2, 3, 20)) for _ in range(rng.randrange(4, 40))]
-        ins.append({"bytes": list(b), "script": script, "tag": "crcpath", "between": []})
+        inp = {"bytes": list(b), "script": script, "tag": "crcpath", "between": []}
+        if rng.random() < 0.3:
+            # far into a long stream, also straddling a multiple of 2^32, alone or as the first of two frames
+            inp["base"] = rng.choice(([1, 2147483647], [1, 2147483646], [1, 2147483645], [1, 2147483644], [1, 2147483640], [2, 5], [3, 2147483646]))
+            if len(b) in (7, 14) and rng.random() < 0.5:
+                inp["chain"] = 1
+        ins.append(inp)
     ev = reader_checks.hx_reader(hx, ins)
     verdicts, st, tr = core.validate_events("Trace_Reader", ev, "C03-reader")
     rep.add_trace_stats(st, tr, len(ev))
